@@ -222,8 +222,11 @@ func execMusig(op string, a []string) string {
 			return "0"
 		}
 		ps := musig2.NewPartialSignature(&s, nil)
-		return b01(ps.Verify(nonce66(unhex(a[1])), nonce66(unhex(a[2])), parseKeys(a[3]), pk, msg32(unhex(a[5])),
-			parseTweakOpt(a[7]).sign(a[6] == "1")...))
+		vo := parseTweakOpt(a[7]).sign(strings.HasPrefix(a[6], "1"))
+		if strings.HasSuffix(a[6], "f") {
+			vo = append(vo, musig2.WithFastSign()) // must not change the verdict of a verification
+		}
+		return b01(ps.Verify(nonce66(unhex(a[1])), nonce66(unhex(a[2])), parseKeys(a[3]), pk, msg32(unhex(a[5])), vo...))
 	}
 	return execExtra(op, a)
 }
@@ -523,6 +526,9 @@ func genMusig(g *core.Gen) {
 		}
 		if r.Bool() {
 			aux = hx(r.Bytes(r.Intn(70) + 1))
+			if r.Chance(1, 4) { // length-prefix boundaries of the 4-byte aux length
+				aux = hx(r.Bytes(int(r.Pick(255, 256, 257, 65535, 65536))))
+			}
 		}
 		g.Case("noncegen", true, fmt.Sprintf("C11 noncegen %x %x %s %s %s %s", r.Bytes(32), pk.SerializeCompressed(), sk, ak, msg, aux))
 	}
@@ -706,6 +712,12 @@ func genMusig(g *core.Gen) {
 			case 3:
 				copy(an2[1:33], r.Bytes(32))
 				cls = "random-x"
+			case 4:
+				for z := 0; z < 33; z++ {
+					an2[z] = 0
+				}
+				an2[1+r.Intn(32)] = 1 // almost the infinity encoding
+				cls = "inf-first-1byte"
 			}
 			// the secret nonce as GenNonces makes it, or with one of Sign's entry conditions violated
 			sec := append([]byte{}, nonces[who].SecNonce[:]...)
@@ -737,6 +749,9 @@ func genMusig(g *core.Gen) {
 				cls += "+fast"
 			}
 			g.Case("msign:"+cls, true, fmt.Sprintf("C11 msign %x %x %x %s %x %s %s", b32(ds[who]), sec, an2, kl, msg[:], fs, tws))
+		}
+		if r.Chance(1, 3) {
+			sortS += "f"
 		}
 		g.Case("pverify:"+class, true, fmt.Sprintf("C11 pverify %x %x %x %s %x %x %s %s", b32(sv), pn, an, keyList, pk, m, sortS, tws))
 	}
